@@ -98,11 +98,11 @@ def run(ctx):
             # buffers handed to the source start at the stored offset
             for e in evs:
                 if e[0] in ('READ', 'READ_ERR'):
-                    want = '[o..]'
-                    if want not in str(e[1]):
+                    wb, ws = io.window(e[1])
+                    if ws != 'o':
                         ctx.violation('T-AREADER', 'window', 'the source is handed %s, expected the part of the frame starting at the stored offset' % (e[1],), where)
                         good = False
-                    if start == 'ReadVal' and 'buffer' not in str(e[1]):
+                    if start == 'ReadVal' and 'buffer' not in wb:
                         ctx.violation('T-AREADER', 'window', 'payload bytes are read into %s, not into self.buffer' % (e[1],), where)
                         good = False
             zero = [r for r in reads if nrange(o, r[2].terms[0][0]) == (0, 0)]
